@@ -10,76 +10,67 @@ namespace Hive
 section
 variable (env : Env)
 
-/-- result of `Instruction.apply_instruction`: `ok (v, prev, next)`, `error` (logged, skipped),
-    or — only for `reposition` on a network whose `link_from_link_id` raises — an exception that
-    aborts `apply_instructions` altogether (`none`). -/
-def planInstr (s : Sim) : Instr → Option (Outcome (VehicleId × Act × Act))
-  | .idle v => some <| match s.vehicle? v with
+/-- `Instruction.apply_instruction`: `ok (v, prev, next)` or `error` (logged, instruction skipped) -/
+def planInstr (s : Sim) : Instr → Outcome (VehicleId × Act × Act)
+  | .idle v => match s.vehicle? v with
     | none => .error
     | some veh => .ok (v, veh.act, .idle 0)
-  | .dispatchTrip v r => some <| match s.vehicle? v, s.request? r with
+  | .dispatchTrip v r => match s.vehicle? v, s.request? r with
     | none, _ => .error
     | some _, none => .error
     | some veh, some req => .ok (v, veh.act, .dispatchTrip r (env.route veh.pos req.pos))
-  | .dispatchPooling v => some <| match s.vehicle? v with
+  | .dispatchPooling v => match s.vehicle? v with
     | none => .error
     | some _ => .error       -- requires the vehicle to be in ServicingPoolingTrip (unreachable)
-  | .dispatchStation v sid c => some <| match s.vehicle? v, s.station? sid with
+  | .dispatchStation v sid c => match s.vehicle? v, s.station? sid with
     | none, _ => .error
     | some _, none => .error
     | some veh, some st => .ok (v, veh.act, .dispatchStation sid c (env.route veh.pos st.pos))
-  | .chargeStation v sid c => some <| match s.vehicle? v with
+  | .chargeStation v sid c => match s.vehicle? v with
     | none => .error
     | some veh => .ok (v, veh.act, .chargingStation sid c)
-  | .chargeBase v b c => some <| match s.vehicle? v with
+  | .chargeBase v b c => match s.vehicle? v with
     | none => .error
     | some veh => .ok (v, veh.act, .chargingBase b c)
-  | .dispatchBase v b => some <| match s.vehicle? v, s.base? b with
+  | .dispatchBase v b => match s.vehicle? v, s.base? b with
     | none, _ => .error
     | some _, none => .error
     | some veh, some base => .ok (v, veh.act, .dispatchBase b (env.route veh.pos base.pos))
   | .reposition v l => match s.vehicle? v with
-    | none => some .error
+    | none => .error
     | some veh =>
       match env.linkEnd l with
-      | .error => none                       -- exception propagates out of apply_instructions
-      | .rejected => some .error
-      | .ok none => some .error
-      | .ok (some dst) => some (.ok (v, veh.act, .repositioning (env.route veh.pos dst)))
-  | .reserveBase v b => some <| match s.vehicle? v with
+      | none => .error
+      | some dst => .ok (v, veh.act, .repositioning (env.route veh.pos dst))
+  | .reserveBase v b => match s.vehicle? v with
     | none => .error
     | some veh => .ok (v, veh.act, .reserveBase b)
-  | .outOfService v => some <| match s.vehicle? v with
+  | .outOfService v => match s.vehicle? v with
     | none => .error
     | some veh => .ok (v, veh.act, .outOfService)
 
-/-- pass 1 of `apply_instructions`: plans computed on the incoming state; `applied_instructions`
-    records every instruction whose plan was computed (before it is known to be accepted) -/
-def planAll (s : Sim) : List Instr → Option (Sim × List (VehicleId × Act × Act))
-  | [] => some (s, [])
+/-- pass 1 of `apply_instructions`: every plan is computed on the incoming state; an instruction
+    whose plan cannot be computed is dropped -/
+def planAll (s : Sim) : List Instr → List (Instr × VehicleId × Act × Act)
+  | [] => []
   | i :: is =>
     match planInstr env s i with
-    | none => none
-    | some (.ok p) =>
-      let s' := { s with applied := upsert (·.1) s.applied (i.vehicle, i) }
-      match planAll s' is with
-      | none => none
-      | some (s'', ps) => some (s'', p :: ps)
-    | some _ => planAll s is
+    | .ok p => (i, p) :: planAll s is
+    | _ => planAll s is
 
-/-- pass 2: one transition after the other; a failed one leaves the state as it was -/
-def applyPlans (w : World) : List (VehicleId × Act × Act) → World
+/-- pass 2: one transition after the other; a failed one leaves the state as it was; an accepted
+    one is recorded in `applied_instructions` -/
+def applyPlans (w : World) : List (Instr × VehicleId × Act × Act) → World
   | [] => w
-  | (v, prev, next) :: ps =>
+  | (i, v, prev, next) :: ps =>
     match transition env w v prev next with
-    | .ok w' => applyPlans w' ps
+    | .ok w' =>
+      applyPlans { w' with sim := { w'.sim with applied := upsert (·.1) w'.sim.applied (i.vehicle, i) } } ps
     | _ => applyPlans w ps
 
-/-- `apply_instructions`; `none` = the call raised -/
-def applyInstructions (w : World) (is : List Instr) : Option World :=
-  match planAll env w.sim is with
-  | none => none
-  | some (s, ps) => some (applyPlans env { w with sim := s } ps)
+/-- `apply_instructions` -/
+def applyInstructions (w : World) (is : List Instr) : World :=
+  applyPlans env w (planAll env w.sim is)
 
 /-- `step_vehicle` with the snapshot activity `a` of vehicle `v` -/
 def stepVehicle (w : World) (v : VehicleId) (a : Act) : World :=
